@@ -271,11 +271,12 @@ PROPS = {
     "C01": dict(
         title="unification (State::unify vs unifyF)",
         props_module="PvModel.Props.C01",
+        props_extra=["PvModel.Props.C01Tri"],
         rule="a history of 0-4 successful State::unify calls followed by one unification of generated terms (literals of all kinds, "
              "shared variables, proper/improper lists, three compound types, depth<=4, occurs-check targets); observable: fail or the "
              "canonically renamed tuple (walk* u, walk* v, walk* x_i); non-trivial = success with >=1 binding, or failure below the root; "
-             "distinct = distinct case lines",
-        trusted=COMMON_TRUST + ["triangular SMap (HashMap, walk chains) is modelled by an idempotent substitution function; only walk*/success/failure are compared"],
+             "distinct = distinct case lines; every case ALSO runs through the triangular model (`unifyT` lines): same observable, plus the stored right-hand side of every binding (HashMap::get) compared with the model's (a difference there alone is a NOTE, not a violation)",
+        trusted=COMMON_TRUST + ["SMap as a HashMap: modelled by a list of bindings (a variable is bound once); the triangular algorithm itself (walk chains, occurs_check, walk_star, unify_rec) is in the model (Model/Triangular.lean) and PROVED to refine the solved-form model (Props/C01Tri.lean)"],
         assumptions=["User terms and Projection terms are outside the Term model"],
         open=[],
     ),
